@@ -43,6 +43,15 @@ SameValue(x, y) ==
                            /\ \A j \in 1..Len(x.k) : SameValue(x.k[j], y.k[j])
        [] OTHER -> x = y
 
+\* compact JSON projection of a value (emitted cases only; TLC never compares these)
+RECURSIVE JVal(_)
+JVal(v) == CASE v.t = "Int" -> [t |-> "I", i |-> v.i]
+             [] v.t = "Float" -> [t |-> "F", f |-> v.f]
+             [] v.t = "String" -> [t |-> "S", s |-> v.s]
+             [] v.t = "Boolean" -> [t |-> "B", b |-> v.b]
+             [] v.t = "Tuple" -> [t |-> "T", k |-> [j \in 1..Len(v.k) |-> JVal(v.k[j])]]
+             [] OTHER -> [t |-> "E"]
+
 RECURSIVE IsValue(_)
 IsValue(v) ==
   /\ DOMAIN v = {"t", "i", "f", "s", "b", "k"}
